@@ -208,7 +208,30 @@ def case_method(ctx, rng):
                 ctx.cat("derived-from-common-ancestor")
             except KeyError:
                 pass
-    if rng.random() < 0.7 and not derived:
+    tied = False
+    if not d2 and not derived and rng.random() < 0.2:
+        # a term of the model's highest degree comes and goes (in place) while a sibling of the same degree stays: the stored
+        # degree may not fall below the terms that remain (no refresh afterwards: exports decide by it whether to reduce)
+        tops = [k for k in M if len(k) >= 3 and len(k) == max(len(x) for x in M)]
+        if tops and len(labs) >= len(tops[0]):
+            k0 = tops[0]
+            sib = tuple(gen.sort_labels(rng.sample(labs, len(k0))))
+            try:
+                if tuple(M.squash_key(sib)) not in M and len(M.squash_key(sib)) == len(k0):
+                    M[sib] += 3
+                    victim = rng.choice([sib, k0])
+                    how_ = rng.choice(["isub-own", "set0", "isub-dict"])
+                    if how_ == "isub-own":
+                        M[victim] -= M[victim]
+                    elif how_ == "set0":
+                        M[victim] = 0
+                    else:
+                        M -= {victim: M[victim]}
+                    tied = True
+                    ctx.cat("tied-top-degree-term-cancelled")
+            except (KeyError, TypeError):
+                pass
+    if rng.random() < 0.7 and not derived and not tied:
         M.refresh()
     if rng.random() < 0.25 and M.num_binary_variables:
         # an earlier export on the same object, before the relabelling below (results must not be remembered)
